@@ -164,8 +164,12 @@ def run_jobs(args, nproc):
 
 
 def run_bounded(case, tier, seed):
-    p = subprocess.run([NATIVE_PY, os.path.join(ROOT, "bounded", "run.py"), case, tier, str(seed)], capture_output=True, text=True,
-                       env=dict(os.environ, SHANGRLA_REPO=REPO), cwd="/")
+    try:
+        p = subprocess.run([NATIVE_PY, os.path.join(ROOT, "bounded", "run.py"), case, tier, str(seed)], capture_output=True, text=True,
+                           env=dict(os.environ, SHANGRLA_REPO=REPO), cwd="/", timeout=1800 if tier == "quick" else 14400)
+    except subprocess.TimeoutExpired:
+        return {"case": case, "error": "bounded case did not finish within its time budget", "evaluations": 0, "distinct_nontrivial": 0,
+                "failures": [], "failures_more": 0, "samples": [], "bound": "", "exhaustive": False, "wall_s": 0}
     try:
         return json.loads(p.stdout[p.stdout.index("@@BOUNDED@@") + 11:])
     except Exception:
